@@ -14,7 +14,6 @@ use crate::{
     eng::{action_name, Engine, RngSpec, F, R},
     gen::{chacha, ctx_strategy, rng_strategy, seed_strategy, slot_strategy, Cfg, CtxSpec, SeedSpec, SlotSpec, Triple, TripleSpec, BITS},
     mutate::{pick, proof_mut, st_mut, Applied, ProofMut, PubStatement, StMut, StPointHow},
-    props::c02::verdicts,
     runner::{guarded, no_fixed, sub, CaseLog, PropertyDef, RunCtx, Sub, Tier},
 };
 
@@ -195,10 +194,7 @@ pub fn build_member<E: Engine>(bits: usize, ext: usize, pm: &PoolMember, max_nm:
                 Err(_) => return Ok(honest(&t, proof)),
             };
             // a proof whose degree tag / d1 length no longer matches the statements is simply an invalid member
-            let (lib_ok, holds, _) = verdicts::<E>(&ps, &t.st, &bytes, None)?;
-            if lib_ok != holds {
-                return Err(format!("singleton verdict {} but reference relation holds = {}", lib_ok, holds));
-            }
+            let lib_ok = singleton::<E>(&ps.ctx, &t.st, &altered)?;
             Ok(Member {
                 st: t.st.clone(),
                 proof: altered,
@@ -223,10 +219,7 @@ pub fn build_member<E: Engine>(bits: usize, ext: usize, pm: &PoolMember, max_nm:
                 Ok(s) => s,
                 Err(_) => return Ok(honest(&t, proof)),
             };
-            let (lib_ok, holds, _) = verdicts::<E>(&ps, &st, &proof.to_bytes(), Some(&proof))?;
-            if lib_ok != holds {
-                return Err(format!("singleton verdict {} but reference relation holds = {}", lib_ok, holds));
-            }
+            let lib_ok = singleton::<E>(&ps.ctx, &st, &proof)?;
             Ok(Member {
                 st,
                 proof,
@@ -239,6 +232,12 @@ pub fn build_member<E: Engine>(bits: usize, ext: usize, pm: &PoolMember, max_nm:
             })
         },
     }
+}
+
+/// "verifies on its own": the library's verdict on the single triple (VerifyOnly). Whether that verdict is RIGHT is C02's
+/// subject; C03 only relates the batch verdict to the singleton verdicts.
+pub fn singleton<E: Engine>(ctx: &CtxSpec, st: &RangeStatement<E::P>, proof: &RangeProof<E::P>) -> Result<bool, String> {
+    Ok(guarded(|| E::verify(&mut [ctx.transcript()], &[st.clone()], &[proof.clone()], VerifyAction::VerifyOnly))?.is_ok())
 }
 
 pub type Masks = Vec<Option<Vec<Scalar>>>;
@@ -686,8 +685,7 @@ pub fn def() -> PropertyDef {
         id: "C03",
         level: "exploration",
         rule: "A case is a pool of 3-8 members sharing bit length and degree (aggregation 1-8, capacity m..4m, with/without seed, contexts, RNG \
-               models; some made individually invalid by one proof or statement mutation, validity decided by singleton verification and \
-               cross-checked with the reference verifier) and a batch = sequence of pool indices of length k in {1..8} u {255,256,257,511,512,513,1100} \
+               models; some made individually invalid by one proof or statement mutation, validity decided by the library's own singleton verification) and a batch = sequence of pool indices of length k in {1..8} u {255,256,257,511,512,513,1100} \
                u uniform 9..700 with invalid members placed at generated positions (first, last, 254..257, 511..513, random), a verify mode and a \
                permutation. Oracle: Ok <=> every member valid; on Ok exactly k results, result i == mask expected for member i; verdict and masks \
                invariant under the permutation. Second generator: malformed batches (empty, ragged sequences, one individually valid member of \
